@@ -392,10 +392,11 @@ def run(tier, only=None):
                 surfs = [dict(name="wing", nx=2, ny=3, sym=True, side="L", shape="swept", visc=True, fem="tube", relief=True, span=20.0, chord=3.0)]
                 if npnt == 1:
                     surfs.append(dict(name="tail", nx=2, ny=3, sym=True, side="L", shape="flat", visc=True, fem="wingbox" if comp else "tube", fuel=comp, span=8.0, chord=1.5, off=(12.0, 0.0, 1.0)))
-                m = B.ASModel(surfs, compressible=comp, rotational=rot, npoints=npnt, rng=np.random.default_rng(1))
-                m.prob.final_setup()
-                for pn in m.points:
-                    wiring.check(R, m.prob, pn, "aerostruct:compressible=%s:rotational=%s:points=%d:%s" % (comp, rot, npnt, pn))
+                for icf in (True, False):  # fuel burn connected inside the point, or by the user (multipoint set-ups)
+                    m = B.ASModel(surfs, compressible=comp, rotational=rot, npoints=npnt, rng=np.random.default_rng(1), point_kw={"internally_connect_fuelburn": icf, "user_specified_Sref": bool(icf) != bool(comp)})
+                    m.prob.final_setup()
+                    for pn in m.points:
+                        wiring.check(R, m.prob, pn, "aerostruct:compressible=%s:rotational=%s:points=%d:internally_connect_fuelburn=%s:user_specified_Sref=%s:%s" % (comp, rot, npnt, icf, bool(icf) != bool(comp), pn))
     R.assume("coupled solver atol 1e-8 N, rtol 1e-14; solver combinations compared at 1e-8 (outputs) / 1e-6 (totals)", "a combination whose iterative solver reports non-convergence is recorded as inconclusive, never as a violation", "trace validation covers the incompressible coupled group (VLMStates); the compressible one is covered by C09/C03")
     return R.finish({"exhaustive": True, "inconclusive_solver_combinations": inconcl})
 
